@@ -74,6 +74,8 @@ class Model:
         w.connect("S1", "S2")
         w.joined = ["S1", "S2"]
         w.nsent = 0
+        w.n_ask = 0
+        w.n_ev = 0
         w.bad = []
         # oracle bookkeeping (independent of the implementation's state)
         w.o_knows = {n: ({p.h8(TICKET[m]) for m in NAMES if m != n} if self.preloaded else set()) for n in NAMES}
@@ -92,6 +94,8 @@ class Model:
                 continue
             if ev[0] == "join" and "S3" in w.joined:
                 continue
+            if ev[0] == "ask_ca" and (w.n_ask >= 1 or w.n_ev > 1):
+                continue        # at most one CA request per history, as first or second event (bounds the state space)
             out.append(ev)
         return out
 
@@ -128,6 +132,7 @@ class Model:
         d = CC.dec_data(frame[4:]) if (frame[0] & 0x0F) == G.BNH_SECURED else None
         carried = None
         pl = None
+        answers_ca = False
         if d is None or d["content"][0] != "signedData":
             bad.append(dict(kind="profile_not_signed", **base))
         else:
@@ -160,6 +165,7 @@ class Model:
                     ok_pl = False
             if not ok_pl:
                 bad.append(dict(kind="profile_payload", **base))
+            answers_ca = "requestedCertificate" in hi
             signer = sd["signer"]
             is_cert = signer[0] == "certificate" and len(signer[1]) == 1 and CC.enc_cert(signer[1][0]) == CC.enc_cert(own)
             is_digest = signer[0] == "digest" and signer[1] == own_h8
@@ -211,11 +217,41 @@ class Model:
                 req = d["content"][1]["tbsData"].get("headerInfo", {}).get("inlineP2pcdRequest") or []
                 if S.pki().h8(TICKET[r])[-3:] in req:
                     w.o_asked[r] = True
-        return dict(accepted=accepted, carried=carried, bad=bad)
+        return dict(accepted=accepted, carried=carried, bad=bad, answers_ca=answers_ca)
+
+    def _ask_ca(self, w):
+        """A verified CAM of an outside peer X (genuine ticket AT_cam, certificate included) whose inlineP2pcdRequest names the
+        AA and the root certificate every station holds: each station must answer with requestedCertificate in its next
+        CAM/VAM - and that answer has to be accepted by everybody and to satisfy the profile like any other message."""
+        p = S.pki()
+        tst = int((w.now - S.ITS_EPOCH + 5) * 1000) % 2 ** 32
+        pkt = G.build("shb", so_addr=G.addr_encode(0, 5, b"\0\0\0\0\0\x58"), so=dict(tst=tst, lat=410005000, lon=20000000, pai=1, s=0, h=0),
+                      rhl=1, nh=G.CNH_BTPB, payload=b"\x07\xd1\x00\x00ask")
+        sec = S.forge(pkt[4:], S.PSID_CAM, S.its_us(w.now), ("certificate", [p.d("AT_cam")]), p.sk("AT_cam"),
+                      header_extra={"inlineP2pcdRequest": [p.h8("AA")[-3:], p.h8("R")[-3:]]})
+        frame = bytes([(pkt[0] & 0xF0) | G.BNH_SECURED]) + pkt[1:4] + sec
+        bad = []
+        for r in w.joined:
+            rs = w.stations[r]
+            rs.btp_indications.clear()
+            rs.stack.verify.log.clear()
+            try:
+                w.inject(r, frame)
+            except Exception as e:  # noqa: BLE001
+                bad.append(dict(kind="receive_exception", exc=type(e).__name__, profile="CAM", station="X"))
+            if not any(port == 2001 and bytes(bi.data) == b"ask" for port, bi in rs.btp_indications):
+                bad.append(dict(kind="honest_rejected", receiver=r, carried_certificate=True, report="n/a", verify_ok=False,
+                                profile="CAM", station="X"))
+        return bad
 
     def apply(self, w, ev):
         w.bad = []
-        if ev[0] == "adv":
+        w.n_ev += 1
+        if ev[0] == "ask_ca":
+            w.n_ask += 1
+            w.bad = self._ask_ca(w)
+            w.last_obs = ("ask_ca", tuple(len(w.stations[n].stack.sign.requested_ats) for n in NAMES))
+        elif ev[0] == "adv":
             w.advance(ev[1])
             w.last_obs = ("adv",)
         elif ev[0] == "join":
@@ -226,7 +262,7 @@ class Model:
         else:
             res = self._send(w, ev[1], ev[2])
             w.bad = res["bad"]
-            w.last_obs = ("send", ev[2], bool(res["carried"]), tuple(sorted(res["accepted"].items())))
+            w.last_obs = ("send", ev[2], bool(res["carried"]), tuple(sorted(res["accepted"].items())), res.get("answers_ca", False))
         return w.last_obs
 
     # -- probe: within two further exchanges ---------------------------------------------------------
@@ -283,7 +319,7 @@ class Model:
             oel = "never" if ol is None else ("inf" if w.now - ol > 1.0 else round(w.now - ol, 3))
             out.append((n in w.joined, el, ss.cam_handler.requested_own_certificate, tuple(ss.unknown_ats), tuple(ss.requested_ats),
                         tuple(sorted(lib.known_authorization_tickets)), tuple(sorted(lib.known_authorization_authorities)),
-                        oel, w.o_asked[n], tuple(sorted(w.o_knows[n]))))
+                        oel, w.o_asked[n], tuple(sorted(w.o_knows[n])), (w.n_ask, min(w.n_ev, 2)) if n == NAMES[0] else 0))
         return tuple(out)
 
     def outcome(self, w, obs):
@@ -297,9 +333,9 @@ def _mk(preloaded, events, probe=True):
 def all_events(thorough=False, reduced=False):
     if reduced:     # deeper histories on the P2PCD-relevant core of the alphabet
         return [("send", "S1", "CAM"), ("send", "S1", "GEN"), ("send", "S2", "CAM"), ("send", "S3", "CAM"),
-                ("adv", 0.4), ("adv", 1.1), ("join",)]
+                ("adv", 0.4), ("adv", 1.1), ("join",), ("ask_ca",)]
     evs = [("send", s, k) for s in NAMES for k in KINDS[s]]
-    evs += [("adv", 0.4), ("adv", 1.1), ("join",)]
+    evs += [("adv", 0.4), ("adv", 1.1), ("join",), ("ask_ca",)]
     return evs
 
 
